@@ -22,7 +22,7 @@ Definition upd {A} (e : nat -> A) (s : nat) (v : A) : nat -> A :=
 Section NetModel.
   Context {K : Type} `{NK : Num K}.
 
-  Definition vec := list K.
+  Local Notation vec := (list K) (only parsing).
 
   (* base[idx] (numpy fancy index / basic slice read) *)
   Definition gather (idx : list nat) (v : vec) : vec := map (fun i => nth i v nzero) idx.
@@ -52,8 +52,9 @@ Section NetModel.
     m_adj : list vec -> list (option vec)          (* _sensitivity; None = "return None for this input" *)
   }.
 
-  Definition tenv := nat -> vec.              (* states / tangents per signal *)
-  Definition cenv := nat -> option vec.       (* Signal.sensitivity per signal; None = not set *)
+  (* tenv: states / tangents per signal; cenv: Signal.sensitivity per signal, None = not set *)
+  Local Notation tenv := (nat -> list K) (only parsing).
+  Local Notation cenv := (nat -> option (list K)) (only parsing).
 
   (* ---- Module.response *)
   Definition read_t (t : tenv) (r : ref) : vec :=
@@ -215,7 +216,7 @@ Section NetModel.
   (* ---- concrete modules: block-sparse dense Jacobians.
      A block (o, i, M) contributes  y_o += M x_i  to the response and  g_i += M^T w_o  to the sensitivity.
      l_none i = true: the module returns None for input i (and its response does not depend on it). *)
-  Definition mat := list (list K).
+  Local Notation mat := (list (list K)) (only parsing).
   Definition mv (M : mat) (x : vec) : vec := map (fun row => dot row x) M.
   Definition mtv (n : nat) (M : mat) (w : vec) : vec :=
     fold_right (fun rw acc => vadd (vscale (snd rw) (fst rw)) acc) (vzero n) (combine M w).
@@ -272,10 +273,10 @@ Section NetModel.
     && list_eqb_nat (l_idims L) (map (ref_dim dims) ins) && list_eqb_nat (l_odims L) (map dims outs).
 End NetModel.
 
-Arguments vec : clear implicits.
-Arguments mat : clear implicits.
 Arguments module : clear implicits.
 Arguments node : clear implicits.
 Arguments lin : clear implicits.
-Arguments tenv : clear implicits.
-Arguments cenv : clear implicits.
+Notation vec K := (list K) (only parsing).
+Notation mat K := (list (list K)) (only parsing).
+Notation tenv K := (nat -> list K) (only parsing).
+Notation cenv K := (nat -> option (list K)) (only parsing).
